@@ -117,7 +117,7 @@ fn single_op(property: &str, data: &[u8]) -> Option<FuzzFail> {
                 8 => (OpKind::Recip, vec![leaf(&a, VKind::Pos, 1, true)]),
                 _ => (OpKind::Sigmoid, vec![leaf(&a, VKind::Small, 1, true)]),
             };
-            let mut st = refmodel::model::RefState::new(0);
+            let mut st = refmodel::model::RefState::forward_only();
             let hs: Vec<usize> = leaves.iter().map(|l| st.new_leaf(&l.dims, &l.vals, false)).collect();
             let out = st.eval(&op, &hs).ok()?;
             let seed = Some(gen_vals(vseed ^ 9, out.numel(), VKind::Int));
